@@ -1064,9 +1064,10 @@ Definition ex_pop_child_edge (x : nat) : M (option nat) :=
 (* Node::remove_dependency + expert_remove_dependency (node.rs:1215) *)
 Definition expert_remove_dependency (fuel : nat) (n : nid) (eid : nat) : M unit :=
   ed <- get_edge eid ;;
-  (* dep.edge.upgrade().unwrap(): the edge lives as long as it is among some node's children *)
+  (* dep.edge.upgrade(): the edge lives as long as it is among some node's children; an edge that is gone
+     (the node was invalid when the dependency was added) leaves nothing to remove *)
   match ed_index ed with
-  | None => panic (PUnwrapNone 420)
+  | None => ret tt
   | Some edge_index =>
     x <- get_node n ;;
     match node_kind x with
@@ -1200,6 +1201,47 @@ Definition perkey_step (fuel : nat) (pk : nat) (new : list (Z * Z)) : M unit :=
   forM_ (zm_diff (pk_prev r0) new) (perkey_visit fuel pk) ;;;
   upd_perkey pk (fun r => r <| pk_prev := new |>).
 
+(* Observer::try_subscribe (public.rs:95) + InternalObserver::subscribe (internal_observer.rs:203) *)
+Definition subscribe (o : oid) (h : hfn) : M (Z + Z) :=
+  ob <- get_obs o ;;
+  now <- gets stab_num ;;
+  match o_state ob with
+  | ODisallowed | OUnlinked => ret (inr ERR_DISALLOWED)
+  | _ =>
+    let token := o_next_token ob in
+    upd_obs o (fun ob => ob <| o_next_token := token + 1 |>) ;;;
+    (* run_all holds on_update_handlers mutably borrowed while this observer's handlers run *)
+    s <- get ;;
+    (if bool_decide (running_obs s = Some o) then panic (PBorrow 450) else ret tt) ;;;
+    upd_obs o (fun ob => ob <| o_handlers := o_handlers ob ++ [Handler token h PNever now] |>) ;;;
+    (match o_state ob with
+     | OInUse => upd_node (o_observing ob) (fun x => x <| n_num_handlers := n_num_handlers x + 1 |>)
+     | _ => ret tt
+     end) ;;;
+    handle_after_stabilisation (o_observing ob) ;;;
+    ret (inl token)
+  end.
+
+(* InternalObserver::unsubscribe (internal_observer.rs:117); token = (observer id, number) *)
+Definition unsubscribe (o : oid) (tok_obs : oid) (tok : Z) : M Z :=
+  if negb (bool_decide (tok_obs = o)) then ret ERR_MISMATCH else
+  ob <- get_obs o ;;
+  match o_state ob with
+  | ODisallowed | OUnlinked => ret 0
+  | _ =>
+    s <- get ;;
+    (if bool_decide (running_obs s = Some o) then panic (PBorrow 451) else ret tt) ;;;
+    if negb (existsb (fun h => bool_decide (hd_token h = tok)) (o_handlers ob)) then ret 0 else   (* already removed *)
+    upd_obs o (fun ob => ob <| o_handlers := filter (fun h => hd_token h ≠ tok) (o_handlers ob) |>) ;;;
+    (match o_state ob with
+     | OInUse =>
+         upd_node (o_observing ob) (fun x => x <| n_num_handlers := n_num_handlers x - 1 |>)
+     | _ => ret tt
+     end) ;;;
+    ret 0
+  end.
+
+
 (* a closure reaches a node through the program's handle table when it runs *)
 Definition with_handle (h : nat) (k : nid -> M unit) : M unit :=
   s <- get ;; match handles s !! h with Some (Some n) => k n | _ => ret tt end.
@@ -1242,6 +1284,15 @@ Definition run_effect (fuel : nat) (arg : val) (e : effect) : M unit :=
         | None => ret tt
         end)
   | EPerKeyStep pk => match arg with VMap m => perkey_step fuel pk m | _ => panic (PModelGap 62) end
+  | ESubscribe o hid => s <- get ;; (match obss s !! o with
+                                     | Some ob => if bool_decide (o_handles ob = 0%nat) then ret tt else subscribe o (HFn hid []) ;;; ret tt
+                                     | None => ret tt end)
+  | EUnsubscribe o tok => s <- get ;; (match obss s !! o with
+                                       | Some ob =>
+                                           (* the closure needs a handle of the observer and a token it was given *)
+                                           if bool_decide (o_handles ob = 0%nat) || negb (bool_decide (1 <= tok < o_next_token ob))
+                                           then ret tt else unsubscribe o o tok ;;; ret tt
+                                       | None => ret tt end)
   | EMakeStale e => with_handle e expert_make_stale
   | EInvalidateExpert e => with_handle e (expert_invalidate fuel)
   | EStabilise => st <- gets st_status ;;
